@@ -185,4 +185,38 @@ followed by `Add` -/
 def agentUpsert (a : List Entry) (new : Entry) : List Entry :=
   a.filter (fun e => !((a.filter (isDup new)).any fun d => d.blob == e.blob)) ++ [new]
 
+/-! ### the client's installation sequence against an agent that fails single requests
+
+`cmd/keymaster insertSSHCertIntoAgentORWriteToFilesystem` calls the upsert with a lifetime and, when
+that fails, once more with the very same certificate and no lifetime (each attempt dials the agent
+anew).  An attempt is: `List`, a `Remove` per certificate with the comment, `Add`; the agent may fail
+any one of these requests (restarting / forwarded / busy agent; an agent that refuses lifetime
+constraints fails the `Add` of the first attempt). -/
+
+/-- which request of one attempt the agent fails -/
+inductive Fault
+  | none                -- the agent answers every request
+  | list                -- the `List` request fails
+  | remove (k : Nat)    -- the `Remove` after `k` successful ones fails (if there are that many)
+  | add                 -- the `Add` fails (e.g. lifetime constraint refused)
+deriving DecidableEq, Repr
+
+/-- `Remove` by key blob of every entry of `ds` -/
+def removeBlobs (a ds : List Entry) : List Entry :=
+  a.filter (fun e => !(ds.any fun d => d.blob == e.blob))
+
+/-- one `withAddedKeyUpsertCertIntoAgentConnection` call: agent afterwards, and whether it returned nil -/
+def attempt (a : List Entry) (new : Entry) : Fault → List Entry × Bool
+  | .none => (agentUpsert a new, true)
+  | .list => (a, false)
+  | .remove k =>
+    if k < (a.filter (isDup new)).length then (removeBlobs a ((a.filter (isDup new)).take k), false)
+    else (agentUpsert a new, true)
+  | .add => (removeBlobs a (a.filter (isDup new)), false)
+
+/-- the attempts of one installation, one fault per attempt, until the first that succeeds -/
+def install (a : List Entry) (new : Entry) : List Fault → List Entry × Bool
+  | [] => (a, false)
+  | f :: fs => if (attempt a new f).2 then attempt a new f else install (attempt a new f).1 new fs
+
 end KM.Client
